@@ -144,6 +144,50 @@ def check_run(ctx, start: datetime, step: int, dur_s: int, out_step=None):
         sk.teardown(b)
 
 
+def check_legs(ctx, start: datetime, step: int, legs):
+    """Several consecutive timed runs on one scenario: each request of D seconds from the current epoch advances floor(D/step) steps."""
+    from resonaate.physics.time.conversions import getTargetJulianDate
+    from resonaate.physics.time.stardate import JulianDate
+
+    from .. import scenario_kit as sk
+
+    sk.init()
+    r, v = sk.circ_state(7000.0, 51.6, 30.0, 40.0)
+    cfg = sk.scenario_cfg(start, start + timedelta(seconds=sum(legs) + 3 * step), step, [sk.engine_cfg(1, [sk.target_cfg(10001, r, v)], [sk.ground_sensor_cfg(20001, 35.0, -106.0)])], truth_only=True)
+    b = sk.build(cfg)
+    wit = {"kind": "legs", "start": start.isoformat(), "step": step, "legs": list(legs)}
+    try:
+        app = b.app
+        calls = {"n": 0}
+        orig = app.stepForward
+
+        def counted():
+            orig()
+            calls["n"] += 1
+
+        app.stepForward = counted
+        done = 0
+        for i, d in enumerate(legs):
+            before = calls["n"]
+            expected = d // step
+            raised = None
+            try:
+                app.propagateTo(getTargetJulianDate(JulianDate(float(app.clock.julian_date_epoch)), timedelta(seconds=d)))
+            except ValueError as e:
+                raised = e
+            got = calls["n"] - before
+            if expected == 0:
+                ctx.check(raised is not None and got == 0, "short-run", "D < step must raise ValueError and execute no step", wit, mon="run_steps")
+            else:
+                ctx.check(raised is None and got == expected, "timed-run-steps-later-leg" if i else "timed-run-steps",
+                          f"leg {i + 1} of {legs}: a request of {d}s from {start.isoformat()}+{done * step}s (step {step}s) executed {got} steps, expected {expected}"
+                          + (f" (raised {raised!r})" if raised else ""), wit, mon="run_steps")
+            done += got
+            ctx.check(app.clock.datetime_epoch == start + timedelta(seconds=done * step), "clock-epochs", "clock epoch != start + k*step after a leg", wit, mon="run_epochs")
+    finally:
+        sk.teardown(b)
+
+
 def run(ctx):
     n_inst = ctx.scale(40_000, 4_000_000)
     for t in _instants(ctx, n_inst):
@@ -177,6 +221,10 @@ def run(ctx):
         out_step = rng.choice([None, None, step * 2, step * 3])
         check_target_jd(ctx, start, dur)
         check_run(ctx, start, step, dur, out_step)
+        if i % 3 == 0:
+            legs = [rng.randrange(1, 8) * step + rng.choice([0, 0, rng.randrange(1, step)]) for _ in range(rng.randrange(2, 5))]
+            check_legs(ctx, start, step, legs)
+            ctx.count("multi_leg_runs")
         ctx.case(("r", start.isoformat(), step, dur), nontrivial=(start.second != 0 or dur % step != 0),
                  sample={"start": start.isoformat(), "step": step, "duration_s": dur})
         ctx.count("timed_runs")
@@ -186,7 +234,9 @@ def replay(ctx, w):
     from .. import scenario_kit as sk
 
     sk.init()
-    if w.get("kind") == "run":
+    if w.get("kind") == "legs":
+        check_legs(ctx, datetime.fromisoformat(w["start"]), w["step"], w["legs"])
+    elif w.get("kind") == "run":
         check_run(ctx, datetime.fromisoformat(w["start"]), w["step"], w["dur"], w.get("out_step"))
     elif w.get("kind") == "target":
         check_target_jd(ctx, datetime.fromisoformat(w["t"]), w["dur"])
